@@ -107,6 +107,7 @@ def fresh_reads_case(item):
     # exact pair is re-run below)
     shared = t0
     key_b0 = T.canon_key(shared)
+    snap_b0 = _plain(T.snapshot(shared))
     for path in paths:
         for prop in prop_names(t0.node(path)):
             try:
@@ -128,6 +129,17 @@ def fresh_reads_case(item):
                 ll = last_label(ra[1]) if ra[0] == "ok" else None
                 if ll is not None and ll > now:
                     viols.append({"rule": "series_beyond_now", "expected": {"node": path, "property": prop, "last_label<=": now}, "observed": ll, "sig": "beyond|%s.%s" % (type(a.node(path)).__name__, prop), "where": {"path": path, "prop": prop}})
+                # every later read (no explicit update in between) must also see the refreshed tree:
+                # the first read must not have cancelled the pending refresh for the other nodes
+                sa = _plain(T.snapshot(a))
+                if not same(sa, snap_b0):
+                    b3 = bfs.run_history(spec, prefix, False)
+                    b3.root.update(b3.root.now)
+                    read(b3, path, prop)
+                    sb3 = _plain(T.snapshot(b3))
+                    if not same(sa, sb3):
+                        diff = [(k, {x: (sa[k][x], sb3[k].get(x)) for x in sa[k] if not same(sa[k][x], sb3[k].get(x))}) for k in sa if k != "__order__" and not same(sa[k], sb3.get(k))]
+                        viols.append({"rule": "later_reads_not_fresh", "expected": {"first_read": {"node": path, "property": prop}, "then": "every other read equals its value after an explicit update"}, "observed": diff[:3], "sig": "later|%s.%s" % (type(a.node(path)).__name__, prop), "where": {"path": path, "prop": prop}})
                 # after the read, an explicit update must lead to the same raw state as update-then-read
                 a.root.update(a.root.now)
                 ka = T.canon_key(a)
